@@ -155,6 +155,9 @@ func cmdCheck(w *World, cfg *RunCfg, prop, replay string, t0 time.Time) int {
 	if prop == "C18" {
 		results = append(results, w.globalStateCalls()...)
 	}
+	if prop == "C06" {
+		results = append(results, w.modeIndependence()...)
+	}
 	if prop == "C01" || prop == "C11" || prop == "C12" || prop == "C17" {
 		results = append(results, w.registryTable(prop)...)
 	}
@@ -486,7 +489,7 @@ func propertyCarrying(name string) bool {
 		return false
 	}
 	k := name[i+1:]
-	for _, p := range []string{"post.", "assert.", "maintains.", "encoder.safe", "nilin.nilout", "inv.", "delegates", "forwards", "formatarg.", "LeafDecoder", "WrapperDecoder", "Migration", "MultiCause", "LeafEncoder", "WrapperEncoder"} {
+	for _, p := range []string{"post.", "assert.", "maintains.", "encoder.safe", "nilin.nilout", "inv.", "delegates", "forwards", "formatarg.", "modeindep", "LeafDecoder", "WrapperDecoder", "Migration", "MultiCause", "LeafEncoder", "WrapperEncoder"} {
 		if strings.HasPrefix(k, p) {
 			return true
 		}
